@@ -57,6 +57,8 @@ def _guard_cases(ctx, lines):
     j = first(lambda r: r["e"] == "Bin" and r["FW"])
     mk("window-entry-dropped", j, lambda r: r["FW"][0][1].pop())
     mk("on-the-fly-1pc", i, lambda r: r["O"][1].__setitem__(2, int(r["O"][1][2] * 1.01) + 6))
+    mk("scaled-back-entry-mantissa", i, lambda r: r["BK"][0][1][1].__setitem__(1, r["BK"][0][1][1][1] + 1), "back-not-homogeneous")
+    mk("scaled-forward-entry-dropped", i, lambda r: r["FK"][-1][1].pop(), "forward-not-homogeneous")
 
     def prevdata(k):
         return [r for r in e[:k] if "ord" in r and r["e"] in ("SetData", "ForwardSubset", "ForwardGroup")][-1]
@@ -85,6 +87,13 @@ def _guard_cases(ctx, lines):
             ch = sorted((-abs(r["fx"][n] - r["y"][n] * 65536), n) for n in range(len(r["y"])) if r["y"][n] != 0)
             if ch and -ch[0][0] > 32768:
                 mk("on-the-fly-group-bin-kept", k, lambda x, n=ch[0][1]: x["fx"].__setitem__(n, x["y"][n] * 65536), "on-the-fly-group")
+                break
+    # a scaled call whose result is not the exponent-shifted result of the unscaled call: one datum lost (set to zero)
+    for k, r in enumerate(e):
+        if r["e"] == "Scaled" and not r["fwd"]:
+            nz = [n for n, v in enumerate(r["ord2"]) if v != 0]
+            if nz:
+                mk("scaled-back-voxel-lost", k, lambda x, n=nz[0]: x["ord2"].__setitem__(n, 0), "back-not-homogeneous")
                 break
     return cases
 
